@@ -175,3 +175,10 @@ def run(chk):
         names = [e.callee for e in p.events if e.kind == "call" and isinstance(e.callee, str)]
         ok = "ringbuf_put" in names and "fibre_run_atomic" in names and names.index("ringbuf_put") < names.index("fibre_run_atomic")
         chk.ob("I2.publish-before-wake", "console_putchar", ok, "the character is in the ring before the console fibre is woken", f.loc, f.name)
+    # the run queue and the timer queue are list_t: FIFO / sorted order rest on list.c keeping head, tail and links right (C09)
+    from . import C09
+    chk.rule_prefix = "list."
+    chk.rule_filter = lambda r: r.startswith(("N1", "N2", "N3", "N5", "N6"))
+    C09.run_rules(chk)
+    chk.rule_prefix = ""
+    chk.rule_filter = None
